@@ -932,6 +932,7 @@ func candSize(cd *Candidate) int {
 // left empty and the replay runs in explore mode from World.Seed.
 func (c *coord) materialise(cd *Candidate) {
 	loadCorpus(c.corpus)
+	bigWorlds = c.tier == "thorough"
 	switch c.prop {
 	case "C09":
 		noiseBase = hashSeed(cd.Seed, 909, uint64(cd.Wid))
